@@ -778,6 +778,13 @@ func SexpToGoStructs(
 		case int64:
 			targVa.Elem().SetInt(int64(src.Val))
 		default:
+			switch targElemKind {
+			case reflect.Int, reflect.Int8, reflect.Int16, reflect.Int32:
+				// SetInt would silently keep only the low bits
+				if targVa.Elem().OverflowInt(src.Val) {
+					return nil, fmt.Errorf("SexpToGoStructs error: integer %d overflows Go type %v", src.Val, targElemTyp)
+				}
+			}
 			targVa.Elem().SetInt(int64(src.Val))
 		}
 	case *SexpStr:
